@@ -165,6 +165,10 @@ def target_for_model(cfg):
     t = target_configured(cfg)
     if cfg.get("target_raw") is None:
         return t
+    if cfg.get("target_literal"):
+        # spellings that are not lexically normalised ("./x", "a/../x", a symbolic link followed by ".."): the model gets
+        # the configured text, only made absolute - lexical normalisation would change what it denotes to the OS
+        return t if t.startswith("/") else base_dir() + "/" + t
     return os.path.abspath(os.path.join(base_dir(), t))
 
 
